@@ -979,7 +979,8 @@ def scenario(rng, world):
     holding a falsy value when it is assigned (in plain code, in a loop, in a conditional); a return out of
     loops nested in a light loop while the caller has values pending; a routine defined inside a branch that
     is not taken or a loop body; index variables of caller and callee loops."""
-    kind = rng.choice(['shadow', 'shadow', 'shadow', 'unwind', 'unwind', 'nested_def', 'nested_def', 'loop_in_loop'])
+    kind = rng.choice(['shadow', 'shadow', 'shadow', 'unwind', 'unwind', 'nested_def', 'nested_def', 'loop_in_loop',
+                       'arg_alias', 'arg_alias', 'paramless_local', 'paramless_local'])
     g = rng.choice(['a', 'x', 'n', 'level'])
     items = []
     if kind == 'shadow':
@@ -1031,6 +1032,43 @@ def scenario(rng, world):
         else:
             items.append(K.rep_all('each', [K.assign('r', K.r_call('probe', [])), K.pr(K.var('each')), K.set_light_var('each')]))
         items.append(K.pr(K.lit(999)))
+    elif kind == 'arg_alias':
+        # arguments are evaluated in the caller's scope: a caller variable named like one of the callee's parameters
+        p1, p2 = rng.choice([('a', 'b'), ('h', 's'), ('x', 'n')])
+        items.append(K.assign(p1, K.lit(1)))
+        items.append(K.assign(p2, K.lit(2)))
+        items.append(K.define('pair', [p1, p2], [K.pr(K.var(p1)), K.pr(K.var(p2)),
+                                                K.ret(K.expr(*K.e_bin('+', K.e_bin('*', K.e_var(p1), K.e_lit(10)), K.e_var(p2))))]))
+        items.append(K.call('pair', [K.lit(5), K.var(p1)]))
+        items.append(K.call('pair', [K.var(p2), K.var(p1)]))
+        items.append(K.pr(K.r_call('pair', [K.lit(7), K.expr(*K.e_bin('+', K.e_var(p1), K.e_lit(1)))])))
+        items.append(K.pr(K.expr(*K.e_bin('+', K.e_call('pair', [K.expr(*K.e_bin('*', K.e_var(p2), K.e_lit(3))), K.var(p1)]), K.e_var(p2)))))
+        items.append(K.define('outer', [p2], [K.call('pair', [K.lit(3), K.var(p2)]), K.pr(K.r_call('pair', [K.var(p2), K.var(p2)])),
+                                            K.rep_range('k', K.lit(1), K.lit(2), [K.call('pair', [K.var('k'), K.var(p2)])])]))
+        items.append(K.call('outer', [K.lit(4)]))
+        if rng.random() < 0.6:
+            gcd = K.define('gcd', [p1, p2], [K.if_(K.expr(*K.e_bin('==', K.e_var(p2), K.e_lit(0))), [K.ret(K.var(p1))]),
+                                            K.ret(K.r_call('gcd', [K.var(p2), K.expr(*K.e_bin('%', K.e_var(p1), K.e_var(p2)))]))])
+            items.append(gcd)
+            items.append(K.pr(K.r_call('gcd', [K.lit(rng.choice([48, 30, 21])), K.lit(rng.choice([18, 12, 14]))])))
+        items.append(K.pr(K.var(p1)))
+        items.append(K.pr(K.var(p2)))
+    elif kind == 'paramless_local':
+        # a routine without parameters has its own locals and loop indices: the caller's are untouched
+        v = rng.choice(['scratch', 't', 'acc'])
+        idx = rng.choice(['i', 'j'])
+        items.append(K.define('helper', [], [K.assign(v, K.lit(5)), K.rep_range(idx, K.lit(10), K.lit(11), [K.pr(K.var(idx))]),
+                                            K.assign(v, K.expr(*K.e_bin('+', K.e_var(v), K.e_lit(1)))), K.ret(K.var(v))]))
+        items.append(K.define('work', [v], [K.rep_range(idx, K.lit(1), K.lit(3), [K.pr(K.var(idx)), K.assign('got', K.r_call('helper', [])),
+                                                                              K.pr(K.var(idx)), K.pr(K.var(v)), K.pr(K.var('got'))]),
+                                           K.call('helper', []), K.ret(K.expr(*K.e_bin('+', K.e_var(v), K.e_lit(1))))]))
+        items.append(K.pr(K.r_call('work', [K.lit(4)])))
+        items.append(K.assign('level', K.lit(0)))
+        items.append(K.define('rec', [], [K.assign('mine', K.var('level')), K.assign('level', K.expr(*K.e_bin('+', K.e_var('level'), K.e_lit(1)))),
+                                         K.if_(K.expr(*K.e_bin('<', K.e_var('level'), K.e_lit(3))), [K.call('rec', [])]), K.pr(K.var('mine'))]))
+        items.append(K.call('rec', []))
+        items.append(K.call('helper', []))
+        items.append(('printf "{%s} {mine} {level} "' % v, '(SPrintf "{%s} {mine} {level} " [])' % v))
     elif kind == 'nested_def':
         first = K.define('early', ['p'], [K.pr(K.var('p')), K.ret(K.lit(1))]) if rng.random() < 0.6 else None
         if first:
